@@ -932,11 +932,12 @@ func fromIdentity(i *Identity) *schemahcl.Resource {
 			specutil.VarAttr("generated", strings.ToUpper(specutil.Var(i.Generation))),
 		},
 	}
+	// Zero values stand for the defaults (as in the identity function).
 	if s := i.Sequence; s != nil {
-		if s.Start != 1 {
+		if s.Start != defaultSeqStart && s.Start != 0 {
 			id.Attrs = append(id.Attrs, schemahcl.Int64Attr("start", s.Start))
 		}
-		if s.Increment != 1 {
+		if s.Increment != defaultSeqIncrement && s.Increment != 0 {
 			id.Attrs = append(id.Attrs, schemahcl.Int64Attr("increment", s.Increment))
 		}
 	}
